@@ -34,6 +34,19 @@ class MeshWedge1(Mesh3D):
     )
     elem: Type[Element] = ElementWedge1
 
+    def _init_facets(self):
+        """Initialize ``self.facets``."""
+        # the triangular facets are listed with one vertex repeated: repeat
+        # the smallest one so that the sorted key of a facet does not depend
+        # on the local numbering of the element it is taken from
+        t = np.vstack((self.t,
+                       self.t[:3].min(axis=0),
+                       self.t[3:].min(axis=0)))
+        self._facets, self._t2f = self.build_entities(
+            t,
+            self.elem.refdom.facets[:3] + [[0, 1, 2, 6], [3, 4, 5, 7]],
+        )
+
     def to_meshtet(self):
 
         t = np.hstack((
